@@ -605,7 +605,7 @@ theorem pushStructEntries_phys (ext : Ext) (un : Bytes → String) (hun : ∀ s,
   | .nil, fs0, s, s', adds, sfs, _, _, _, h => by
     simp only [pushStructEntries] at h; cases h
     intro j f found _ hf
-    simp only [interpByKey] at hf; cases hf
+    simp only [interpByKey, keyOf_eq] at hf; cases hf
     exact ChildRel.refl un s j
   | .cons k x rest, fs0, s, s', adds, sfs, hraw, hm, hsl, h => by
     have hraw' : (noRaw k = true ∧ noRaw x = true) ∧ noRawe rest = true := by simpa [noRawe] using hraw
@@ -618,7 +618,7 @@ theorem pushStructEntries_phys (ext : Ext) (un : Bytes → String) (hun : ∀ s,
       have ih := pushStructEntries_phys ext un hun rest fs0 _ s' adds sfs hraw'.2 (hm.next UNKNOWN_KEY) hsl h
       intro j f found hj hf
       have hne := key_none hm.nodup hnone (names_at hsl hj)
-      simp only [interpByKey, hopt, hne, Bool.false_eq_true, if_false] at hf
+      simp only [interpByKey, keyOf_eq, hopt, hne, Bool.false_eq_true, if_false] at hf
       obtain ⟨vs, hvs, hf⟩ := (bind_ok _ _ _).1 hf
       cases hf
       exact ChildRel.of_eq rfl rfl (ih j f _ hj hvs)
@@ -633,7 +633,7 @@ theorem pushStructEntries_phys (ext : Ext) (un : Bytes → String) (hun : ∀ s,
       have ih := pushStructEntries_phys ext un hun rest fs0 _ s' _ sfs hraw'.2 (hm1.next UNKNOWN_KEY) hsl1 h
       intro j f found hj hf
       have hk := key_at hm.nodup hidx (names_at hsl hj)
-      simp only [interpByKey, hopt] at hf
+      simp only [interpByKey, keyOf_eq, hopt] at hf
       obtain ⟨vs, hvs, hf⟩ := (bind_ok _ _ _).1 hf
       by_cases hij : idx = j
       · subst hij
